@@ -335,6 +335,13 @@ def run(ctx, chk):
                'wipe never truncates: a longer unusable file keeps its old length (not the documented 72 bytes)')
         chk.ob('C16.V4', 'repair:declared-size-is-segment-size', vals[2] is not None and vals[2] == info['segsize_arg'] == seg_val == info['map_len'], info['where'],
                'wipe declares size %s; mapped segment = %s; header + record rounded = %s; mapped length on this path = %s' % (vals[2], seg_val, info['segsize_arg'], info['map_len']))
+        # the bytes actually written make the file as long as the layout says: a seek past the end, or a shorter fill,
+        # leaves a re-created file whose header promises more than the file holds
+        hdr_size = C04.layout(fb, '::ShmHeader')['size']
+        chk.ob('C16.V4', 'repair:written-file-is-the-documented-length', img.total is not None and img.total == 72 == vals[2]
+               and bool(img.zero_from(hdr_size)), info['where'],
+               'the re-created file holds %s written bytes (header declares %s, documented total 72); bytes after the %d-byte header all zero: %s' % (
+                   img.total, vals[2], hdr_size, img.zero_from(hdr_size)))
     if sm.ok:
         C04.check_new(fb, chk, rule_prefix='C16.V4', m=sm)
         # clients run as other users: whatever explicit permission bits the daemon's start-up applies to the segment file
